@@ -14,3 +14,30 @@ class RotatingProvider(AuthProvider):
     def provide(self):
         CALLS.append("rot")
         return [("authorization", "Bearer token-%d" % len(CALLS))]
+
+
+class FlakyProvider(AuthProvider):
+    """Fails the first time it is asked (a transient token-fetch error), works afterwards."""
+
+    def provide(self):
+        CALLS.append("flaky")
+        if CALLS.count("flaky") == 1:
+            from simkit import kernel as _k
+            k = _k.active()
+            if k is not None:
+                k.fault("auth_provider_raise")
+            raise RuntimeError("token endpoint unavailable")
+        return [("authorization", "Bearer recovered")]
+
+
+class SlowProvider(AuthProvider):
+    """Takes simulated time to answer the first time (other threads can ask meanwhile)."""
+
+    def provide(self):
+        CALLS.append("slow")
+        from simkit import kernel as _k
+        k = _k.active()
+        if k is not None and CALLS.count("slow") == 1:
+            k.fault("auth_provider_slow")
+            k.sleep(0.4)
+        return [("authorization", "Bearer slow-token")]
